@@ -376,16 +376,21 @@ def check(run):
     sj = []
     for t in ts:
         for d in (t["dialects"] if thorough else t["dialects"][:1]):
-            for lim, Lv in (("default", L), ("10", 10)):
+            # limits below, at and above the default (a release that is capped at / confused with the default
+            # budget only shows for a configured limit above it)
+            for lim, Lv in (("default", L), ("10", 10), ("80", 80)):
                 sj.append(("sibling", t, d, lim, Lv))
             if t["kind"] == "nest":
                 sj.append(("reuse", t, d, "10", 10))
+                sj.append(("reuse", t, d, "80", 80))
+    # a limit above the default needs proportionally more stack: those children run on the 8 MB main-thread stack
+    stack_for = lambda Lv: "main" if Lv > L else "thread"
     def run_s(j):
         kind, t, d, lim, Lv = j
         if kind == "sibling":
             mm = min(m, 2000) if t["id"] in SLOW_FLAT else m  # these parse in super-linear time (C02's business)
-            return child(bindir, ["sibling", t["id"], Lv // 2, mm, d, lim, "thread"], timeout=300)
-        return child(bindir, ["reuse", t["id"], 3 * Lv + 1, Lv // 2, d, lim, "thread"], timeout=300)
+            return child(bindir, ["sibling", t["id"], Lv // 2, mm, d, lim, stack_for(Lv)], timeout=300)
+        return child(bindir, ["reuse", t["id"], 3 * Lv + 1, Lv // 2, d, lim, stack_for(Lv)], timeout=300)
     sres = pmap(run_s, sj)
     sstat = {}
     for j, r in zip(sj, sres):
@@ -430,7 +435,7 @@ def check(run):
     run.sample({"sibling": sj[0][1]["sibling_example"], "result": sres[0]})
 
     # ---- 5. counter model vs implementation (thresholds), inside Coq
-    limits = [5, 10, 20, 50]
+    limits = [5, 10, 20, 50, 80]
     guarded_nest = [t for t in ts if t["kind"] == "nest" and not any(fs & set(t["funcs"]) for fs in crash_known_funcs.values())]
     tj = [(t, t["dialects"][0], Lv) for t in guarded_nest for Lv in limits]
     tres = pmap(lambda j: child(bindir, ["thresh", j[0]["id"], j[1], j[2], 4 * j[2] + 8], timeout=120), tj)
@@ -579,14 +584,14 @@ def replay(path):
         bindir = harness_bin()
         if r.get("mode") == "sibling":
             L = DEFAULT_L if r["limit"] == "default" else int(r["limit"])
-            out = child(bindir, ["sibling", r["template"], L // 2, r["siblings"], r["dialect"], r["limit"], "thread"], timeout=300)
+            out = child(bindir, ["sibling", r["template"], L // 2, r["siblings"], r["dialect"], r["limit"], "main" if L > DEFAULT_L else "thread"], timeout=300)
         elif r.get("mode") == "builders":
             out = child(bindir, ["builders", r["template"], r["depth"], r["dialect"], r["limit"], "main"], timeout=120)
             print("implementation now:", json.dumps(out))
             return 0 if out["status"] == "ok" else 1
         elif r.get("mode") == "reuse":
             L = int(r["limit"])
-            out = child(bindir, ["reuse", r["template"], 3 * L + 1, L // 2, r["dialect"], r["limit"], "thread"], timeout=300)
+            out = child(bindir, ["reuse", r["template"], 3 * L + 1, L // 2, r["dialect"], r["limit"], "main" if L > DEFAULT_L else "thread"], timeout=300)
         else:
             out = child(bindir, ["nest", r["template"], r["n"], r["dialect"], r["limit"], r.get("stack", "thread")], timeout=300)
         print("implementation now:", json.dumps(out))
